@@ -62,7 +62,9 @@ impl SignedRegister {
     /// Verfies a SignedRegister
     pub fn verify(&self) -> Result<()> {
         let reg_size = self.ops.len();
-        if reg_size >= MAX_REG_NUM_ENTRIES as usize {
+        // `add_op` admits entries while fewer than the maximum are held, so a register holding
+        // exactly the maximum is a state replicas can reach and must be accepted here.
+        if reg_size > MAX_REG_NUM_ENTRIES as usize {
             return Err(Error::TooManyEntries(reg_size));
         }
 
